@@ -7,6 +7,28 @@ HERE = os.path.dirname(os.path.dirname(os.path.abspath(__file__)))
 
 # id -> (category, technique, text, note, design_ref)
 CHECKS = {
+    "C14": ("exploration", "post-condition monitors + independent recomputation of every ciphertext (PKCS7 + AES-CBC with the observed IV)",
+            "The real AES-CBC wrapper (obtained by name, as the schemes do) is driven with all message lengths 0..80 "
+            "for each key length and several keys, random lengths to 4096 biased to block boundaries, related keys, "
+            "and every declared length off by +-1; each call is checked for round-trip, exact expansion, "
+            "randomisation, process-wide IV uniqueness, wrong-key behaviour and equality with an independent "
+            "computation. The same post-conditions run in-situ under every scheme workload.",
+            "Trusts the `cryptography` AES-CBC primitive as reference and the oracle in props/c14.py.", "DESIGN.md §3 C14"),
+    "C15": ("exploration", "exhaustive bijection monitor per key (n=2..12, all 2-byte LR messages) + inverse/injectivity oracles on random wide inputs + in-situ PRP hook during SSE-1/SSE-2 setup",
+            "For sampled keys the image of ALL 2^n inputs is collected for n = 2..12 and must be {0,1}^n with "
+            "decrypt inverting encrypt; widths to 2100 bits (around multiples of the 160-bit digest, odd and even) are "
+            "sampled; Luby-Rackoff is run on all 65 536 two-byte messages and on structured sample sets for 4..64 "
+            "bytes; wrong key/message lengths must raise; and the PRP instances inside SSE-1/SSE-2 are hooked during "
+            "real setups so that the addresses they produce are observed to be collision-free and in range.",
+            "Keys are sampled (exhaustive per key, not over keys); trusts the set-based oracle in props/c15.py.",
+            "DESIGN.md §3 C15"),
+    "C16": ("exploration", "differential monitor against reference RFC 5246 P_hash / counter-mode expansion written in the harness",
+            "Outputs of the real HmacPRF and hash wrapper (looked up by name) are compared byte for byte with "
+            "reference implementations over seeded (digest, key 0..80, message 0..200, length 1..200) draws and a "
+            "complete output-length sweep 1..200 per digest; determinism, exact length, pairwise distinctness on "
+            "near-duplicate inputs and declared-length refusals are checked on the same calls.",
+            "Trusts hashlib/hmac as the reference primitives and the reference constructions in props/c16.py.",
+            "DESIGN.md §3 C16"),
     "C17": ("exploration", "post-condition monitors on the real encoding functions over seeded class-directed inputs",
             "Round-trip / count / length post-conditions are evaluated on the real functions for tens of thousands of "
             "seeded inputs covering identifier sizes 1..40, capacities 1..70, list lengths 0..300, custom block sizes, "
